@@ -258,6 +258,25 @@ class Expander:
                 body_text = '{' + prefix_text + inner + '\n}'
             src_lines = [s.line_of(cur_s), s.line_of(cur_e - 1)]
             body_src_off = cur_s
+        elif 'body-of-loop' in sections:
+            # rule E3c: the body of the n-th loop of the function (source order) is emitted as a function of its own: the
+            # parameters (given by `sig:`) are the loop's pattern bindings and the variables the body uses; `tail:` is what
+            # "go on with the next iteration" returns.  The loop header itself (what is iterated) is NOT under contract.
+            n_ = int(sections['body-of-loop'][0].strip())
+            loops = s.loops_in(bo, bc + 1)
+            if n_ > len(loops):
+                raise AnchorLost('%s: loop #%d no longer exists (%d loops)' % (label, n_, len(loops)))
+            kw, lopen = loops[n_ - 1]
+            lclose = s.match_close(lopen)
+            hdr = re.sub(r'\s+', ' ', s.text[kw:lopen]).strip()
+            want = ' '.join(sections.get('loop-header', [])).strip()
+            if want and hdr != want:
+                raise AnchorLost('%s: loop #%d header is now `%s` (contract written for `%s`)' % (label, n_, hdr, want))
+            arm_desc = 'body of loop `%s`' % hdr
+            tail = '\n'.join(sections.get('tail', []))
+            body_text = '{' + s.text[lopen + 1:lclose] + '\n' + tail + '\n}'
+            src_lines = [s.line_of(lopen), s.line_of(lclose)]
+            body_src_off = lopen
         else:
             body_text = s.text[body_s:body_e]
             src_lines = [s.line_of(hs), s.line_of(bc)]
